@@ -118,6 +118,9 @@ func applyServiceExtends(ctx context.Context, name string, services map[string]a
 	}
 
 	if base == nil {
+		// the extended service is declared without any content: there is nothing to inherit
+		delete(service, "extends")
+		services[name] = service
 		return service, nil
 	}
 	source := deepClone(base).(map[string]any)
